@@ -1,1 +1,212 @@
+import Got.Model.Sort
+import Got.Model.SortUnique
+import Got.Lemmas.SortUnique
+import Got.Lemmas.SortBounds
+import Got.Lemmas.SortInsertion
+import Got.Lemmas.SortHeap
+import Got.Lemmas.SortPivot
+import Got.Lemmas.SortQuick
 /- property theorems of C15 (only theorems + non-vacuity examples live here) -/
+open Got.Model.Sort Got.Model.SortUnique
+open Got.Lemmas.Sort (StrictWeak)
+
+/-! ## (a) UniqueInt / UniqueString -/
+
+/-- `Unique*` never panics and returns the input with every run of equal adjacent elements collapsed to its
+    first element, order kept (`collapseRuns`); the backing array keeps its length. -/
+theorem C15_unique {α : Type} [DecidableEq α] (a : Array α) :
+    ∃ r b, unique a = some (r, b) ∧ r.toList = collapseRuns a.toList ∧ b.size = a.size :=
+  Got.Lemmas.SortUnique.unique_spec a
+
+/-- `collapseRuns` is the library function `List.eraseReps` ("keep the first element of each run") -/
+theorem C15_unique_spec_eraseReps {α : Type} [DecidableEq α] (l : List α) : collapseRuns l = l.eraseReps :=
+  Got.Lemmas.SortUnique.collapseRuns_eq_eraseReps l
+
+/-- independent characterisation of `collapseRuns l`: no two neighbours of it are equal, and `l` is obtained back
+    by repeating its k-th element `ns[k]+1 ≥ 1` times (so it is exactly the list of run heads of `l`). -/
+theorem C15_unique_spec_runs {α : Type} [DecidableEq α] (l : List α) :
+    Got.Lemmas.SortUnique.NoAdjEq (collapseRuns l) ∧
+    ∃ ns : List Nat, ns.length = (collapseRuns l).length ∧
+      l = (List.zipWith (fun n x => List.replicate (n + 1) x) ns (collapseRuns l)).flatten := by
+  cases l with
+  | nil => exact ⟨trivial, [], rfl, rfl⟩
+  | cons x t =>
+    refine ⟨Got.Lemmas.SortUnique.collapseFrom_noAdjEq x t, ?_⟩
+    obtain ⟨ns, h1, h2⟩ := Got.Lemmas.SortUnique.collapseFrom_runs x t
+    exact ⟨ns, by simpa [collapseRuns] using h1, h2⟩
+
+/-- sorted (non-decreasing) input gives a strictly increasing result, for any antisymmetric `le` -/
+theorem C15_unique_sorted_strict {α : Type} [DecidableEq α] (le : α → α → Prop)
+    (antisymm : ∀ x y, le x y → le y x → x = y) (a : Array α) (hsorted : List.Pairwise le a.toList) :
+    ∃ r b, unique a = some (r, b) ∧ List.Pairwise (fun x y => le x y ∧ x ≠ y) r.toList := by
+  obtain ⟨r, b, h1, h2, _⟩ := C15_unique a
+  refine ⟨r, b, h1, ?_⟩
+  rw [h2]
+  cases hl : a.toList with
+  | nil => simp [collapseRuns]
+  | cons x t =>
+    rw [hl] at hsorted
+    exact Got.Lemmas.SortUnique.collapseFrom_strict le antisymm x t hsorted
+
+/-- UniqueInt on a sorted []int: strictly increasing -/
+theorem C15_unique_int_sorted (a : Array Int) (hsorted : List.Pairwise (· ≤ ·) a.toList) :
+    ∃ r b, unique a = some (r, b) ∧ List.Pairwise (· < ·) r.toList := by
+  obtain ⟨r, b, h1, h2⟩ := C15_unique_sorted_strict (· ≤ ·) (fun x y h1 h2 => Int.le_antisymm h1 h2) a hsorted
+  exact ⟨r, b, h1, h2.imp (fun ⟨h, hne⟩ => by omega)⟩
+
+/-- a non-empty input gives a non-empty result starting with the first element -/
+theorem C15_unique_nonempty {α : Type} [DecidableEq α] (a : Array α) (h : a.size ≥ 1) :
+    ∃ r b, unique a = some (r, b) ∧ r.size ≥ 1 ∧ r[0]? = a[0]? := by
+  obtain ⟨r, b, h1, h2, _⟩ := C15_unique a
+  refine ⟨r, b, h1, ?_⟩
+  rcases a with ⟨l⟩
+  cases l with
+  | nil => simp at h
+  | cons x t =>
+    have : r.toList = x :: collapseFrom x t := h2
+    rcases r with ⟨rl⟩
+    simp only at this
+    subst this
+    simp
+
+example : ∃ r b, unique #[1, 1, 2, 2, 2, 3, 1, 1] = some (r, b) ∧ r.toList = [1, 2, 3, 1] := by
+  obtain ⟨r, b, h1, h2, _⟩ := C15_unique #[1, 1, 2, 2, 2, 3, 1, 1]
+  exact ⟨r, b, h1, by rw [h2]; decide⟩
+example : List.Pairwise (· ≤ ·) (#[(1 : Int), 1, 2, 5, 5]).toList := by decide
+
+/-! ## (b) SliceBy with an ARBITRARY less function -/
+
+/-- For every less function — a function of the current contents, the whole call history and the two indices, so
+    also inconsistent ones — `SliceBy(keys, values, less)` terminates (`sliceBy` is a total function) and, with
+    `n = min(len keys, len values)`:
+    * the (key, value) pairs at equal indices `< n` after the call are a permutation of the original ones,
+    * both slices keep their length and everything at an index `≥ n` is untouched,
+    * every index passed to `less` or to the swapper is `< n` (so neither `reflect.Swapper` nor an indexing
+      less closure can panic). -/
+theorem C15_perm_pairing_prefix {K V : Type} (less : LessFn K V) (keys : Array K) (vals : Array V) :
+    let n := min keys.size vals.size
+    let r := sliceBy less keys vals
+    ((r.keys.toList.take n).zip (r.vals.toList.take n)).Perm ((keys.toList.take n).zip (vals.toList.take n)) ∧
+    r.keys.size = keys.size ∧ r.vals.size = vals.size ∧
+    (∀ k, n ≤ k → r.keys[k]? = keys[k]? ∧ r.vals[k]? = vals[k]?) ∧
+    (∀ e ∈ r.log, match e with
+      | .less i j _ => i < n ∧ j < n
+      | .swap i j => i < n ∧ j < n) := by
+  intro n r
+  have st := Got.Lemmas.Sort.sliceBy_steps less keys vals
+  have hsz := st.sizes
+  have hperm := st.zip_perm (Nat.min_le_left _ _) (Nat.min_le_right _ _)
+  refine ⟨?_, hsz.1, hsz.2, fun k hk => st.outside k (Or.inr hk), ?_⟩
+  · have h1 := Array.perm_iff_toList_perm.1 hperm
+    rw [Array.toList_zip, Array.toList_zip, List.zip_eq_zip_take_min,
+      List.zip_eq_zip_take_min (l₁ := keys.toList)] at h1
+    simp only [Array.length_toList] at h1
+    rw [hsz.1, hsz.2] at h1
+    exact h1
+  · obtain ⟨evs, h1, h2⟩ := st.log
+    intro e he
+    have he' : e ∈ evs := by
+      have : e ∈ evs ++ [] := by
+        have h1' : (sliceBy less keys vals).log = evs ++ [] := h1
+        rw [← h1']; exact he
+      simpa using this
+    have := h2 e he'
+    cases e with
+    | less i j b => exact ⟨this.2.1, this.2.2.2⟩
+    | swap i j => exact ⟨this.2.1, this.2.2.2⟩
+
+/-- the statement is not vacuous for an inconsistent less: "everything is less than everything" -/
+example : ((sliceBy (fun _ _ _ => true) #[3, 1, 2] #["a", "b"]).keys.size = 3) :=
+  (C15_perm_pairing_prefix (fun _ _ _ => true) #[3, 1, 2] #["a", "b"]).2.1
+
+/-! ## (c) sortedness of the insertion-sort path and of the heap-sort path
+`StrictWeak lt`: `lt` irreflexive, transitive, incomparability transitive.  "Sorted" = no later key is less than an
+earlier one. -/
+
+/-- insertionSort_func sorts the range `[a,b)` (any contents, any `a`, `b` within the key slice) -/
+theorem C15_sorted_insertionSort {K V : Type} {lt : K → K → Bool} (sw : StrictWeak lt) (a b : Nat) (s : St K V)
+    (hb : b ≤ s.keys.size) :
+    ∀ i j x y, a ≤ i → i < j → j < b → (insertionSort (stdLess lt) a b s).keys[i]? = some x →
+      (insertionSort (stdLess lt) a b s).keys[j]? = some y → lt y x = false :=
+  Got.Lemmas.Sort.insertionSort_sorted sw a b s hb
+
+/-- heapSort_func (the fallback when the depth limit is exhausted) sorts the range `[a,b)` -/
+theorem C15_sorted_heapSort {K V : Type} {lt : K → K → Bool} (sw : StrictWeak lt) (a b : Nat) (s : St K V)
+    (hab : a ≤ b) (hb : b ≤ s.keys.size) :
+    ∀ i j x y, a ≤ i → i < j → j < b → (heapSort (stdLess lt) a b s).keys[i]? = some x →
+      (heapSort (stdLess lt) a b s).keys[j]? = some y → lt y x = false :=
+  Got.Lemmas.Sort.heapSort_sorted sw a b s hab hb
+
+/-- `<` on Int is a strict weak order (non-vacuity of the hypothesis) -/
+example : StrictWeak (fun (x y : Int) => decide (x < y)) where
+  irrefl := by intro x; simp
+  trans := by intro x y z h1 h2; simp at *; omega
+  incomp_trans := by intro x y z h1 h2 h3 h4; simp at *; omega
+
+/-! ## (d) doPivot post-condition, full sortedness, depth -/
+
+/-- doPivot_func on a range of at least 3 elements inside the key slice (it is only called with more than 12):
+    for any less, all indices stay in `[lo,hi)` and `lo ≤ midlo < hi`, `lo ≤ midhi ≤ hi`; with the standard closure
+    over a strict weak order there is a pivot value `p` (found at `midlo`) such that `[lo,midlo)` is `≤ p`,
+    `[midlo,midhi)` is equivalent to `p` and non-empty, `[midhi,hi)` is `≥ p`. -/
+theorem C15_doPivot_post {K V : Type} {lt : K → K → Bool} (sw : StrictWeak lt) (lo hi : Nat) (s : St K V)
+    (h : lo + 3 ≤ hi) (hsz : hi ≤ s.keys.size) :
+    let r := doPivot (stdLess lt) lo hi s
+    lo ≤ r.1 ∧ r.1 < r.2.1 ∧ r.2.1 ≤ hi ∧
+    ∃ p, r.2.2.keys[r.1]? = some p ∧
+      (∀ k x, lo ≤ k → k < r.1 → r.2.2.keys[k]? = some x → lt p x = false) ∧
+      (∀ k x, r.1 ≤ k → k < r.2.1 → r.2.2.keys[k]? = some x → lt p x = false ∧ lt x p = false) ∧
+      (∀ k x, r.2.1 ≤ k → k < hi → r.2.2.keys[k]? = some x → lt x p = false) := by
+  intro r
+  obtain ⟨_, b1, _, _, b4⟩ := Got.Lemmas.Sort.doPivot_steps (stdLess lt) lo hi s h
+  obtain ⟨p, hp, z1, z2, z3, hlt⟩ := Got.Lemmas.Sort.doPivot_sem sw lo hi s h hsz
+  exact ⟨b1, hlt, b4, p, hp, z1, z2, z3⟩
+
+/-- After `SliceBy(keys, values, func(i,j) bool { return keys[i] < keys[j] })` with `<` a strict weak order, the first
+    `min(len keys, len values)` keys are in non-decreasing order: no later key is less than an earlier one
+    (all three paths: insertion sort, quicksort partitioning, heap-sort fallback). -/
+theorem C15_sorted {K V : Type} {lt : K → K → Bool} (sw : StrictWeak lt) (keys : Array K) (vals : Array V) :
+    let n := min keys.size vals.size
+    let r := sliceBy (stdLess lt) keys vals
+    ∀ i j x y, i < j → j < n → r.keys[i]? = some x → r.keys[j]? = some y → lt y x = false := by
+  intro n r i j x y h1 h2 hx hy
+  exact Got.Lemmas.Sort.sliceBy_sorted sw keys vals i j x y (Nat.zero_le _) h1 h2 hx hy
+
+/-- `[]int` keys with `<` -/
+theorem C15_sorted_int {V : Type} (keys : Array Int) (vals : Array V) :
+    let n := min keys.size vals.size
+    let r := sliceBy (stdLess (fun (x y : Int) => decide (x < y))) keys vals
+    ∀ i j x y, i < j → j < n → r.keys[i]? = some x → r.keys[j]? = some y → x ≤ y := by
+  intro n r i j x y h1 h2 hx hy
+  have sw : StrictWeak (fun (x y : Int) => decide (x < y)) :=
+    { irrefl := by intro x; simp
+      trans := by intro x y z h1 h2; simp at *; omega
+      incomp_trans := by intro x y z h1 h2 h3 h4; simp at *; omega }
+  have := C15_sorted sw keys vals i j x y h1 h2 hx hy
+  simpa using this
+
+/-- Depth: SliceBy starts quickSort_func with the budget `maxDepth(n) = 2·k`, `k = ⌈lg(n+1)⌉` (the least `k` with
+    `n+1 ≤ 2^k`); every partition step — loop iteration or nested call — consumes one unit, so the longest chain of
+    partition steps (`quickSortLevels`, an instrumented copy computing the same state) is at most `2·⌈lg(n+1)⌉`;
+    heapSort_func is entered exactly when the budget is 0 on a range of more than 12 elements.
+    The O(n log n) bound on the NUMBER of comparisons is not proved here (monitored by the check's oracle). -/
+theorem C15_depth {K V : Type} (less : LessFn K V) (keys : Array K) (vals : Array V) :
+    let n := min keys.size vals.size
+    let s0 : St K V := ⟨keys, vals, []⟩
+    ∃ k, maxDepth n = 2 * k ∧ n + 1 ≤ 2 ^ k ∧ (∀ k', n + 1 ≤ 2 ^ k' → k ≤ k') ∧
+      (quickSortLevels less 0 n (maxDepth n) s0).1 = quickSort less 0 n (maxDepth n) s0 ∧
+      (quickSortLevels less 0 n (maxDepth n) s0).2 ≤ 2 * k ∧
+      (n > 1 → sliceBy less keys vals = quickSort less 0 n (maxDepth n) s0) := by
+  intro n s0
+  obtain ⟨k, h1, h2, h3⟩ := Got.Lemmas.Sort.maxDepth_spec n
+  have h4 := Got.Lemmas.Sort.quickSortLevels_spec less (maxDepth n) 0 n s0
+  refine ⟨k, h1, h2, h3, h4.1, by omega, ?_⟩
+  intro hn
+  unfold sliceBy
+  dsimp only
+  rw [if_neg (by omega)]
+
+/-- a budget-0 call on a large range is the heap sort (definitional, stated for the record) -/
+theorem C15_depth_heapSort_at_zero {K V : Type} (less : LessFn K V) (a b : Nat) (s : St K V)
+    (h : b - a > thrInsertion) : quickSort less a b 0 s = heapSort less a b s := by
+  rw [quickSort, if_pos h]
